@@ -15,8 +15,8 @@ CONSTANTS
   SaveResults = {TRUE, FALSE}
   Jumps = {1}
   MaxTicks = 1
-  MaxStarts = 3
-  MaxVer = 3
+  MaxStarts = 2
+  MaxVer = 2
   MaxEnt = 3
   MaxPurges = 2
   MaxKills = 0
